@@ -459,6 +459,67 @@ pub fn check(tier: Tier, threads: usize) -> CheckOutcome {
             }
         }
     }
+    // ---- C: long pipelines - tens of requests in one segment (more than any per-read budget) ----
+    for n in [24usize, 64, 200] {
+        crate::watchdog::working_on(format!("C09 pipeline of {} requests", n));
+        let mut bytes = vec![];
+        let mut loud = 0usize;
+        for i in 0..n {
+            let r = match i % 4 {
+                0 => Req::store(op::SET, format!("p{}", i).as_bytes(), b"v", 1, 0, 0),
+                1 => Req::get(op::GET, format!("p{}", i - 1).as_bytes()),
+                2 => Req::store(op::SETQ, format!("q{}", i).as_bytes(), b"w", 2, 0, 0),
+                _ => Req::bare(op::NOOP),
+            };
+            if i % 4 != 2 {
+                loud += 1;
+            }
+            bytes.extend(r.opaque(0x9000 + i as u32).bytes());
+        }
+        let whole = match run_socket(&[&bytes]) {
+            Ok(o) => o,
+            Err(e) => {
+                mach = Some(e);
+                break;
+            }
+        };
+        let answered = wire::split_responses(&whole.received).0.len();
+        if answered != loud {
+            add(
+                format!("long-pipeline|{}", n),
+                format!("{} pipelined requests ({} loud) sent in one segment: {} responses", n, loud, answered),
+                json!({"engine": "c09", "part": "socket-segmentation", "stream": format!("pipeline-{}", n), "bytes": wire::hex_full(&bytes), "cuts": []}),
+            );
+            continue;
+        }
+        let mut cut_sets: Vec<Vec<usize>> = vec![(1..bytes.len()).step_by(97).collect(), (1..bytes.len()).step_by(24).collect()];
+        if bytes.len() < 3000 {
+            cut_sets.push(corpus::bytewise(bytes.len()));
+        }
+        for cuts in cut_sets {
+            let ch = corpus::split(&bytes, &cuts);
+            match run_socket(&ch) {
+                Ok(o) if o != whole => {
+                    add(
+                        format!("socket-segmentation|pipeline-{}", n),
+                        format!(
+                            "{} pipelined requests answered differently when cut every {} bytes: unsegmented {} responses, segmented {}",
+                            n,
+                            cuts.get(1).map(|c| c - cuts[0]).unwrap_or(1),
+                            answered,
+                            wire::split_responses(&o.received).0.len()
+                        ),
+                        json!({"engine": "c09", "part": "socket-segmentation", "stream": format!("pipeline-{}", n), "bytes": wire::hex_full(&bytes), "cuts": cuts}),
+                    );
+                    break;
+                }
+                Ok(_) => {}
+                Err(e) => mach = Some(e),
+            }
+            evals.fetch_add(1, Ordering::Relaxed);
+        }
+    }
+    crate::watchdog::idle();
     // runs that differ from each other are explained by a leak between connections once one was seen
     if found.contains_key("next-connection|disturbed") && mach.as_deref().map(|m| m.contains("two unsegmented runs differ")).unwrap_or(false) {
         mach = None;
